@@ -212,11 +212,15 @@ async def wait_for_dependencies(
     for suc_sim, adapt in sim.successors_to_wait_for.items():
         futures.append(suc_sim.progress.has_reached(next_step + adapt))
     if lazy_stepping:
-        # Only wait for the successors to reach the main time of our next
-        # step. (Sub-times are not comparable along paths that leave
-        # and re-enter a group, so waiting for them can deadlock.)
-        lazy_step = TieredTime(next_step.time, *([0] * (len(next_step) - 1)))
         for suc_sim, adapt in sim.successors.items():
+            # Only compare those tiers of our next step that survive on
+            # every data path to the successor. (The remaining sub-times
+            # are reset on paths that leave and re-enter a group, so
+            # waiting for them can deadlock.)
+            cutoff = sim.lazy_cutoffs.get(suc_sim, len(next_step))
+            lazy_step = TieredTime(
+                *next_step.tiers[:cutoff], *([0] * (len(next_step) - cutoff))
+            )
             futures.append(suc_sim.progress.has_reached(lazy_step + adapt))
 
     await asyncio.gather(*futures)
